@@ -273,6 +273,10 @@ pub fn metas() -> Vec<(String, syn::Meta)> {
         "v", "a::b", "::v", "v()", "v(a)", "v(a = 1)", "v(zz)", "v(a = \"x\")", "v(a = 300)", "v(a = 1, b = \"s\")", "v(uno)", "v(duo = 4)", "v(duo = \"x\")", "v(k = \"s\", j = \"t\")", "v(k = \"s\", k = \"t\")", "v(a = \"x\", n(c = \"y\", d = \"z\"))", "v(a = 1, n(c = 2, zz))", "v(zz, n(), b = 5)", "v(a = 1, n(c = 2, d = 3))", "v(a, b,)", "v(a,)", "v(a = 1,)", "v(a = 1, b = \"s\",)", "v(uno,)", "v(a::b, c,)", "v(k = \"s\", j = \"t\",)",
         "v(a::b, c)", "v = true", "v = \"s\"", "v = \"5\"", "v = \"uno\"", "v = \"a::b\"", "v = \"1 +\"", "v = 5", "v = -3", "v = 300", "v = 'c'", "v = 1.5", "v = a::b", "v = a", "v = 1 + 2",
         "v = [1, 2]", "v = 0..5", "v = |x| x", "v = (a + b)", "v = (5)", "v = ((a))", "v = (a, b)", "v = { 1 }", "v = -x", "v = &x", "v = (\"s\")", "v = (true)",
+        // values spelled like the wrappers' own variants are ordinary values for the inner conversion
+        "v = None", "v = Some", "v = none", "v = Some(5)", "v = Ok", "v = Ok(5)", "v = Err", "v = Inherit", "v = Explicit", "v = Explicit(5)", "v = Default", "v = default", "v = Box", "v = null", "v = ()",
+        // a list whose single member is a literal is a list, not a value
+        "v(\"s\")", "v(5)", "v(true)", "v('c')", "v(\"a::b\")", "v(\"uno\")", "v(1.5)", "v(300)", "v(\"s\",)", "v(5, 6)", "v(\"s\", a = 1)", "v(None)", "v(Some)",
     ];
     let mut out: Vec<(String, syn::Meta)> = vec![];
     for t in texts {
